@@ -107,6 +107,9 @@ def run(model, tier="quick"):
     # payouts bounded by the position in the same units (Aave withdraw / repay-with-collateral clamp)
     from .C10 import ledgers
     ledgers(res, model, ["withdraw", "repay"])
+    # compensation handlers (rollback on a rejected step) must refund exactly what was taken
+    from ..rules.rollback import rollback_rule
+    res.units["compensation_handlers"] = rollback_rule(model, res)
     res.assumptions = ["indices, prices and decimals are positive (used to scale guards)",
                        "payout = guarded amount is established by the per-market ledger identities (C07, C09, C10, C14, C15, C17)"]
     res.not_decided = ["conservation of the total net value over arbitrary sequences (1e-5 dust accumulation, swaps losing exactly the fee)"]
